@@ -23,6 +23,7 @@ type ReplayModel struct {
 	Harness string            `json:"harness"`
 	Vars    map[string]uint64 `json:"vars"`
 	Params  map[string]int    `json:"params"`
+	Lists   map[string][]string `json:"lists,omitempty"`
 	Timeout int               `json:"timeout_ms,omitempty"`
 }
 
